@@ -1,0 +1,9 @@
+//go:build verif && !amd64 && !arm64 && !js
+
+package websocket
+
+// VerifHasMaskAsm reports that no assembly masking routine exists on this platform.
+const VerifHasMaskAsm = false
+
+// VerifMaskAsm falls back to the portable implementation.
+func VerifMaskAsm(b []byte, key uint32) uint32 { return maskGo(b, key) }
